@@ -202,6 +202,12 @@ func scenarioBastion(t *traceWriter, rng *rand.Rand) {
 			w.newLogState(fmt.Sprintf("bastion.example/%d/a", si), keyA, false),
 			w.newLogState(fmt.Sprintf("bastion.example/%d/b", si), keyA, rng.Intn(3) == 0),
 		}
+		// a third log that stays at size 0 (the placeholder branch of Update has its own code): only the script below names it
+		zeroLog := w.newLogState(fmt.Sprintf("bastion.example/%d/zero", si), keyA, false)
+		zeroScript := si%4 == 2 && si%10 < 7
+		if zeroScript {
+			lss = append(lss, zeroLog)
+		}
 		limit, allowN := rate.Inf, -1
 		switch si % 10 {
 		case 7:
@@ -269,6 +275,40 @@ func scenarioBastion(t *traceWriter, rng *rand.Rand) {
 				ls.has, ls.curSize, ls.cur = true, size, cur
 			}
 			n = 0
+		}
+		if zeroScript {
+			lss = lss[:2]
+			bs.lss = lss
+			zl := zeroLog.l
+			empty := zeroLog.branches[0].root(0)
+			other := randHash(rng, 32)
+			z := func(root []byte, ext ...string) []byte { return signNote(cpText(zl.origin, 0, root, ext...), zl.key.signer) }
+			first := empty
+			if rng.Intn(3) == 0 {
+				first = other // a log may sign any 32 bytes beside size 0
+				other = empty
+			}
+			bs.serve(writeBody(0, [][]byte{}, z(first, "first")), "zero.first", 200, "")
+			for _, k := range rng.Perm(6) {
+				if bs.dead {
+					break
+				}
+				switch k {
+				case 0: // same tree head, another text: accepted, and the answer cosigns the text submitted now
+					bs.serve(writeBody(0, [][]byte{}, z(first, fmt.Sprintf("again-%d", rng.Intn(1000)))), "zero.refresh", 200, "")
+				case 1: // same size, another root
+					bs.serve(writeBody(0, [][]byte{}, z(other)), "zero.rootMismatch", 409, "")
+				case 2: // a proof between two empty trees
+					bs.serve(writeBody(0, [][]byte{randHash(rng, 32)}, z(first)), "zero.proof", 422, "")
+				case 3: // old size above the checkpoint size
+					bs.serve(writeBody(1+uint64(rng.Intn(3)), [][]byte{}, z(first)), "zero.oldTooLarge", 400, "")
+				case 4: // identical resubmission
+					bs.serve(writeBody(0, [][]byte{}, z(first, "first")), "zero.same", 200, "")
+				case 5: // growth from the placeholder: the known finding F2 (VerifyConsistency(0, n) always errors)
+					br := zeroLog.branches[0]
+					bs.serve(writeBody(0, [][]byte{}, signNote(cpText(zl.origin, 3, br.root(3)), zl.key.signer)), "zero.growth", 0, "")
+				}
+			}
 		}
 		for i := 0; i < n && !bs.dead; i++ {
 			ls := lss[rng.Intn(len(lss))]
